@@ -56,18 +56,133 @@ theorem add_missing_refines (input : List Scaffold) (b : Build) (g : Gap) (hg : 
       unfold srcSep
       by_cases h1 : l ≠ i - 1
       · by_cases h2 : (PyRt.slice sc.rows (some (l + 1)) (some i)).all Row.isGap = true
-        · simp only [h1, h2, decide_true, if_true]
+        · simp only [h1, h2, decide_eq_true_eq, ne_eq, not_false_eq_true, if_true]
           rw [forIn_addRows _ (fun _ _ _ => rfl)]
           simp only [ImpMissing.ok_bind, loSet_snoc, List.append_assoc]
-        · simp only [h1, h2, decide_true, if_true, if_false, Bool.false_eq_true, ImpMissing.ok_bind, loSet_snoc, List.append_assoc]
-      · simp only [h1, decide_false, if_false, Bool.false_eq_true, ImpMissing.ok_bind, loSet_snoc, List.append_nil]
+        · simp only [h1, h2, decide_eq_true_eq, ne_eq, not_false_eq_true, if_true, if_false, Bool.false_eq_true, ImpMissing.ok_bind, loSet_snoc, List.append_assoc]
+      · simp only [h1, decide_eq_true_eq, if_false, ImpMissing.ok_bind, loSet_snoc, List.append_nil]
     · intro la h; rfl
     · intro la r h
+      dsimp only
       unfold finish
       congr 1
       funext s'
       by_cases hc : (s'.target_tags && !(sc.fragmentTags.contains "Target".toList)) = true <;>
         simp only [hc, if_true, if_false, Bool.false_eq_true, ImpMissing.ok_bind]
   · intro h s' a; rfl
+
+/-- the same from the namer tie in the form of tasks/W9_T1c_addmissing.md (every `fragment_tags` argument, `tagsOf`): this is what
+    `C09.make_scaffold_name_refines` is to discharge -/
+theorem add_missing_refines_of_namer_tie (input : List Scaffold) (b : Build) (g : Gap) (hg : b.joinGap = some g)
+    (s : PyRt.SrcNamer) (hs : WFNamer s) (habs : absNamer s = b.namer)
+    (found : List (Key × Nat)) (hkeys : ∀ k, (dGet? found k).isSome = dHas b.found k)
+    (hmk : ∀ s sc ft, WFNamer s → (Gen.Imp.ScaffoldNamer_make_scaffold_name s sc ft).map absNamer
+              = makeScaffoldName (absNamer s) sc.name sc.rows (tagsOf sc ft))
+    (hwf : ∀ s sc ft s', WFNamer s → Gen.Imp.ScaffoldNamer_make_scaffold_name s sc ft = .ok s' → WFNamer s') :
+    (∀ heap added s', Gen.Imp.BuildAssembly_add_missing_scaffolds_from_input s input g found = .ok (heap, added, s') →
+        added = List.range heap.length ∧ WFNamer s' ∧ (∀ x ∈ heap, loSrc (loModel x) = x) ∧
+        addMissing input b = .ok { b with namer := absNamer s', extra := b.extra ++ heap.map loModel }) ∧
+    (∀ e, Gen.Imp.BuildAssembly_add_missing_scaffolds_from_input s input g found = .error e →
+        addMissing input b = .error e) :=
+  add_missing_refines input b g hg s hs habs found hkeys (fun s sc h => hmk s sc none h) (fun s sc s' h => hwf s sc none s' h)
+
+/-- read from the model's side ("exactly when"): whatever `addMissing` does, the source did the same -/
+theorem add_missing_refines_conv (input : List Scaffold) (b : Build) (g : Gap) (hg : b.joinGap = some g)
+    (s : PyRt.SrcNamer) (hs : WFNamer s) (habs : absNamer s = b.namer)
+    (found : List (Key × Nat)) (hkeys : ∀ k, (dGet? found k).isSome = dHas b.found k)
+    (hmk : ∀ s sc, WFNamer s → (Gen.Imp.ScaffoldNamer_make_scaffold_name s sc none).map absNamer
+              = makeScaffoldName (absNamer s) sc.name sc.rows sc.fragmentTags)
+    (hwf : ∀ s sc s', WFNamer s → Gen.Imp.ScaffoldNamer_make_scaffold_name s sc none = .ok s' → WFNamer s') :
+    (∀ b', addMissing input b = .ok b' →
+        ∃ heap s', Gen.Imp.BuildAssembly_add_missing_scaffolds_from_input s input g found = .ok (heap, List.range heap.length, s') ∧
+          WFNamer s' ∧ heap = (b'.extra.drop b.extra.length).map loSrc ∧
+          b' = { b with namer := absNamer s', extra := b.extra ++ heap.map loModel }) ∧
+    (∀ e, addMissing input b = .error e →
+        Gen.Imp.BuildAssembly_add_missing_scaffolds_from_input s input g found = .error e) := by
+  obtain ⟨h1, h2⟩ := add_missing_refines input b g hg s hs habs found hkeys hmk hwf
+  cases hsrc : Gen.Imp.BuildAssembly_add_missing_scaffolds_from_input s input g found with
+  | error e =>
+    have := h2 e hsrc
+    refine ⟨fun b' hb => ?_, fun e' he => ?_⟩
+    · rw [this] at hb; cases hb
+    · rw [this] at he; cases he; rfl
+  | ok r =>
+    obtain ⟨heap, added, s'⟩ := r
+    obtain ⟨ha, hw, hl, hm⟩ := h1 heap added s' hsrc
+    refine ⟨fun b' hb => ?_, fun e' he => ?_⟩
+    · rw [hm] at hb
+      cases hb
+      refine ⟨heap, s', by rw [ha], hw, ?_, rfl⟩
+      simp only [List.drop_left, List.map_map]
+      conv => lhs; rw [← List.map_id heap]
+      exact List.map_congr_left (fun x hx => (hl x hx).symm)
+    · rw [hm] at he; cases he
+
+/-! the generated function runs.  Input scaffold `s1 = a g1 b g2 c` of which only `b` was placed: the left-over is `a`, the default
+    gap, `c` (a contig placed elsewhere lay between them); it has no `input_predecessor` (nothing in front of `a`); `c` carries the
+    tag `Target`, so the namer now knows targets are in use, and this scaffold is not a contaminant; its haplotype `h1` is read off the
+    name of its first contig.  Then `s3 = d` (untagged, nothing placed): left over whole, and tagged `Contaminant`. -/
+def exA : Fragment := { oid := 1, name := "h1_s_1".toList, start := 1, stop := 10, strand := 1 }
+def exB : Fragment := { oid := 2, name := ['b'], start := 1, stop := 20, strand := -1 }
+def exC : Fragment := { oid := 3, name := ['c'], start := 5, stop := 30, strand := 1, tags := ["Target".toList] }
+def exD : Fragment := { oid := 4, name := ['d'], start := 1, stop := 8, strand := 1 }
+def exG1 : Gap := { length := 7, gapType := ['u'] }
+def exG2 : Gap := { length := 9, gapType := ['v'] }
+def exDflt : Gap := { length := 200, gapType := "scaffold".toList }
+def exNamer : PyRt.SrcNamer := { autosome_prefix := "SUPER_".toList }
+/-- the model's build state / the source's `found_fragments` dictionary in which exactly the contigs `fnd` are registered -/
+def exBuild (fnd : List Fragment) : Build :=
+  { namer := absNamer exNamer, nextOid := 10, joinGap := some exDflt, err := 3,
+    found := fnd.map (fun f => (f.keyTuple, { fragment := f, scaffolds := [0] })) }
+def exFound (fnd : List Fragment) : List (Key × Nat) := fnd.map (fun f => (f.keyTuple, 0))
+def exS1 : Scaffold := { name := ['s','1'], rows := [.frag exA, .gap exG1, .frag exB, .gap exG2, .frag exC] }
+def exS2 : Scaffold := { name := ['s','2'], rows := [.frag exB, .gap exG1, .frag exA, .gap exG1, .gap exG2, .frag exC] }
+def exS3 : Scaffold := { name := ['s','3'], rows := [.frag exD] }
+def exNamer' : PyRt.SrcNamer :=
+  { exNamer with current_scaffold_name := some "h1_s_1".toList, current_rank := some 3, current_haplotype := some ['h','1'],
+                 target_tags := true, haplotype_lc_dict := [(['h','1'], ['h','1'])] }
+
+example : Gen.Imp.BuildAssembly_add_missing_scaffolds_from_input exNamer [exS1, exS3] exDflt (exFound [exB])
+    = .ok ([({ name := ['s','1'], rows := [.frag exA, .gap exDflt, .frag exC], rank := 3, haplotype := some ['h','1'] }, none),
+            ({ name := ['s','3'], rows := [.frag exD], rank := 3, tag := some "Contaminant".toList }, none)], [0, 1],
+           { exNamer' with current_scaffold_name := some ['d'], current_haplotype := none }) := by rfl
+
+/-- … and the model on the same input, evaluated independently: the same two pairs appended to `extra`, the same namer -/
+example : (addMissing [exS1, exS3] (exBuild [exB])).map (fun b' => (b'.extra, b'.namer))
+    = .ok ([({ name := ['s','1'], rows := [.frag exA, .gap exDflt, .frag exC], rank := 3, haplotype := some ['h','1'] }, none),
+            ({ name := ['s','3'], rows := [.frag exD], rank := 3, tag := some "Contaminant".toList }, none)],
+           absNamer { exNamer' with current_scaffold_name := some ['d'], current_haplotype := none }) := by rfl
+
+/-- `s2 = b g1 a g1 g2 c`, only `b` placed: only gaps lie between the left-over contigs `a` and `c` — both are kept; the object remembers
+    its predecessor in the input, `b` and the gap `g1` behind it -/
+example : Gen.Imp.BuildAssembly_add_missing_scaffolds_from_input exNamer [exS2] exDflt (exFound [exB])
+    = .ok ([({ name := ['s','2'], rows := [.frag exA, .gap exG1, .gap exG2, .frag exC], rank := 3, haplotype := some ['h','1'] },
+             some (.frag exB, [.gap exG1]))], [0], exNamer') := by rfl
+example : (addMissing [exS2] (exBuild [exB])).map (fun b' => (b'.extra, b'.namer))
+    = .ok ([({ name := ['s','2'], rows := [.frag exA, .gap exG1, .gap exG2, .frag exC], rank := 3, haplotype := some ['h','1'] },
+             some (exB, [exG1]))], absNamer exNamer') := by rfl
+
+/-- everything placed: no object, nothing changes -/
+example : Gen.Imp.BuildAssembly_add_missing_scaffolds_from_input exNamer [exS1] exDflt (exFound [exA, exB, exC])
+    = .ok ([], [], exNamer) := by rfl
+
+/-- two left-over contigs with different haplotype tags: `make_scaffold_name` raises TaggingError, on both sides -/
+def exT1 : Fragment := { oid := 5, name := ['t'], start := 1, stop := 5, strand := 1, tags := ["hapA".toList] }
+def exT2 : Fragment := { oid := 6, name := ['t'], start := 6, stop := 9, strand := 1, tags := ["hapB".toList] }
+def exS4 : Scaffold := { name := ['s','4'], rows := [.frag exT1, .gap exG1, .frag exT2] }
+example : Gen.Imp.BuildAssembly_add_missing_scaffolds_from_input exNamer [exS3, exS4] exDflt (exFound [exB]) = .error .tagging := by rfl
+example : (addMissing [exS3, exS4] (exBuild [exB])).map (fun b' => b'.extra) = .error .tagging := by rfl
+
+/-- the hypotheses of `add_missing_refines` are met by the example state (the two about `make_scaffold_name` are the subject of
+    Properties/C09Imp.lean; here: the instance the first example uses) -/
+example : (exBuild [exB]).joinGap = some exDflt ∧ WFNamer exNamer ∧ absNamer exNamer = (exBuild [exB]).namer ∧
+    (∀ k, (dGet? (exFound [exB]) k).isSome = dHas (exBuild [exB]).found k) := by
+  refine ⟨rfl, by simp [WFNamer, exNamer], rfl, fun k => ?_⟩
+  by_cases h : exB.keyTuple = k <;> simp [exFound, exBuild, dGet?, dHas, h]
+example :
+    (Gen.Imp.ScaffoldNamer_make_scaffold_name exNamer { name := ['s','1'], rows := [.frag exA, .gap exDflt, .frag exC], rank := 3 } none).map
+        absNamer
+      = makeScaffoldName (absNamer exNamer) ['s','1'] [.frag exA, .gap exDflt, .frag exC]
+          ({ name := ['s','1'], rows := [.frag exA, .gap exDflt, .frag exC], rank := 3 } : Scaffold).fragmentTags := by rfl
 
 end AgpTpf.C01
